@@ -32,6 +32,7 @@ class _Err:
 UNKNOWN = _Unknown()
 ERR = _Err()
 _MISSING = object()
+_ACTIVE_FD = []        # interpreters currently executing a function, innermost last
 CURRENT_SYM = [None]   # set by Symbols(): the table of the repository under analysis
 
 
@@ -477,6 +478,12 @@ class FD:
                 ga = self.class_method(base, '__getattr__')
                 if ga is not None:
                     return ga(e.attr)   # the class's own __getattr__, interpreted
+            if '__unknown_attr__' in base.attrs:
+                # a stand-in that knows how to look further (a module stand-in evaluating the module's own tables)
+                v = base.attrs['__unknown_attr__'](e.attr)
+                if v is not _MISSING:
+                    base.attrs[e.attr] = v
+                    return v
             if base.attrs.get('__closed__'):
                 raise Raised('AttributeError', '%r object has no attribute %r' % (base._name, e.attr))
             if base.attrs.get('__open__'):
@@ -487,6 +494,15 @@ class FD:
                 base.attrs[e.attr] = v
                 return v
             raise Inconclusive('fdeval: %r has no modelled attribute %s' % (base, e.attr))
+        if isinstance(getattr(base, '_fd_class', None), ast.ClassDef):
+            # a pedal class used as a value: its class-level constants (through the MRO)
+            probe = Obj('class-probe')
+            probe.attrs['__classdef__'] = base._fd_class
+            cv = self.class_constant(probe, e.attr)
+            if cv is not _MISSING:
+                return cv
+            if e.attr in ('__name__', '__qualname__'):
+                return base._fd_class.name
         if isinstance(base, type) and e.attr in ('__name__', '__qualname__'):
             return base.__name__
         if self.attr_hook is not None:
@@ -586,7 +602,10 @@ class FD:
                 inner[p] = a
             if vararg:
                 inner[vararg] = tuple(args[len(params):])
-            return self.eval(e.body, inner)
+            # a lambda stored in a module-level table was built by the interpreter that evaluated the table; it runs
+            # under the interpreter that calls it (whose harness models isinstance, type, ...)
+            runner = _ACTIVE_FD[-1] if _ACTIVE_FD else self
+            return runner.eval(e.body, inner)
         return f
 
     def e_GeneratorExp(self, e, env):
@@ -1012,9 +1031,11 @@ class FD:
                 and isinstance(getattr(fn, '_parent', None), ast.ClassDef):
             bound_self.attrs['__classdef__'] = fn._parent
         self._mods.append(getattr(fn, '_module', None) or (self._mods[-1] if self._mods else None))
+        _ACTIVE_FD.append(self)
         try:
             r = self.run(fn.body, env)
         finally:
+            _ACTIVE_FD.pop()
             self._mods.pop()
         return None if r is NO_RETURN else r
 
@@ -1050,7 +1071,20 @@ class FD:
             if isinstance(st, ast.Assign) and any(isinstance(t, ast.Name) and t.id == attr for t in st.targets):
                 self._mods.append(getattr(cd, '_module', None) or (self._mods[-1] if self._mods else None))
                 try:
-                    return self.eval(st.value, {})
+                    # the class body is a scope of its own: names bound by earlier class-level assignments
+                    scope = {}
+                    for earlier in cd.body:
+                        if earlier is st:
+                            break
+                        if isinstance(earlier, ast.Assign) and len(earlier.targets) == 1 and \
+                                isinstance(earlier.targets[0], ast.Name) and \
+                                any(isinstance(n_, ast.Name) and n_.id == earlier.targets[0].id
+                                    for n_ in ast.walk(st.value)):
+                            try:
+                                scope[earlier.targets[0].id] = self.eval(earlier.value, dict(scope))
+                            except (Inconclusive, Raised):
+                                pass
+                    return self.eval(st.value, scope)
                 except Inconclusive:
                     # a class-level object the interpreter cannot build (`_ORIGINAL_STDOUT = sys.stdout`): an opaque
                     # value distinct from everything else, one per class attribute
@@ -1151,6 +1185,21 @@ class FD:
                         fn1 = k.methods.get(attr) if hasattr(k, 'methods') else None
                         if fn1 is not None and 'classmethod' in [_d1(x) for x in fn1.decorator_list]:
                             return self.call_function(fn1, list(args), kwargs, bound_self=recv)
+        ci0 = getattr(recv, '_fd_class', None)
+        if isinstance(ci0, ast.ClassDef) and self.sym is not None and getattr(ci0, '_module', None) is not None:
+            ci0 = self.sym.classes.get((ci0._module.name, getattr(ci0, '_qualname', ci0.name)))
+        if ci0 is not None and self.sym is not None and hasattr(ci0, 'methods'):
+            # a pedal class used as a value (its generic constructor stand-in): class- and static methods are pedal's own
+            from .astutil import dotted as _d0
+            for k in self.sym.mro(ci0):
+                fn0 = k.methods.get(attr) if hasattr(k, 'methods') else None
+                if fn0 is not None:
+                    decos = [_d0(x) for x in fn0.decorator_list]
+                    if 'classmethod' in decos:
+                        return self.call_function(fn0, list(args), kwargs, bound_self=recv)
+                    if 'staticmethod' in decos:
+                        return self.call_function(fn0, list(args), kwargs)
+                    break
         if isinstance(recv, ModRef):
             f = self.modref_attr(recv, attr)
             if callable(f):
